@@ -5,6 +5,8 @@ import Mieru.Model.Retx
 import Mieru.Gen.Consts
 import Mieru.Gen.Facts
 import Mieru.Gen.UdpFacts
+import Mieru.Gen.RecvBuf
+import Mieru.Proofs.Rto
 /-!
 # C02 — UDP transport: reliable, ordered, exactly-once stream over a faulty network; progress
 
@@ -285,6 +287,46 @@ theorem discard_and_receive_predicates :
     (Gen.Facts.seqCounterAdds.filter (fun x => x.2.1 == "s.nextRecv")) =
       [("Session.moveRecvBufToRecvQueue", "s.nextRecv", "1")] := by decide
 
+/-! ## The receiver accepts every datagram a legal peer can send (model assumption made explicit)
+
+`Arq.Step.recvData` / `Flow.Step.deliver` hand the receiver every datagram the network delivers, WHOLE: the
+models have no "datagram too long for the receiver" step. In the code the MTU (legal range [1280, 1500], per
+endpoint) is a LOCAL SENDING limit — fragment size and padding are computed from the sender's MTU (C14:
+every datagram an endpoint emits is ≤ ITS MTU) and nothing is negotiated — so the two ends may be
+configured with different MTUs and the end with the smaller MTU receives datagrams longer than its own.
+The models' assumption is therefore: the receive path reads datagrams up to the MAXIMUM legal MTU, whatever the
+local MTU is. Regenerated facts (`Gen.RecvBuf`, tools/goextract/recvbuf.go): the buffer
+`PacketUnderlay.readOneSegment` reads one datagram into has a constant size (`none` if the size expression
+depends on anything, e.g. `u.mtu`), and the largest MTU pkg/appctl accepts in a client profile or a server
+configuration. Exercised end to end by harness/props/c02_mtu.go (different MTUs on the two ends). -/
+
+/-- the size of the receive buffer of the packet underlay as regenerated (0 when it is not a constant) -/
+def recvBufSize : Nat := (Gen.RecvBuf.readBufferSizes.head?.getD none).getD 0
+
+/-- Every datagram within the sender's MTU fits the receiver's buffer for EVERY pair of legal MTUs — the
+    receiver's own MTU does not occur in the conclusion: there is exactly one datagram read site, its
+    buffer is a constant, the constant is at least every upper bound the configuration validation enforces
+    (and those bounds exist and agree), and hence no datagram of a legal peer is truncated. -/
+theorem receive_buffer_holds_any_legal_datagram :
+    Gen.RecvBuf.readBufferSites.map (fun x => x.1) = ["PacketUnderlay.readOneSegment"] ∧
+    Gen.RecvBuf.readBufferSizes = [some 1500] ∧
+    Gen.RecvBuf.mtuUpperBounds ≠ [] ∧ (∀ m ∈ Gen.RecvBuf.mtuUpperBounds, m ≤ recvBufSize) ∧
+    (∀ m ∈ Gen.RecvBuf.mtuLowerBounds, m ≤ Gen.RecvBuf.defaultMTU) ∧
+    (∀ m ∈ Gen.RecvBuf.mtuUpperBounds, Gen.RecvBuf.defaultMTU ≤ m) ∧
+    ∀ senderMtu receiverMtu len : Nat,
+      (∀ m ∈ Gen.RecvBuf.mtuUpperBounds, senderMtu ≤ m) → (∀ m ∈ Gen.RecvBuf.mtuUpperBounds, receiverMtu ≤ m) →
+      len ≤ senderMtu → len ≤ recvBufSize := by
+  refine ⟨by decide, by decide, by decide, by decide, by decide, by decide, ?_⟩
+  intro sm _ len hs _ hl
+  have h1 : sm ≤ 1500 := hs 1500 (by decide)
+  have h2 : recvBufSize = 1500 := by decide
+  omega
+
+/-- non-vacuity: the extreme legal pair (sender 1500, receiver 1280) meets the hypotheses, and a buffer of the
+    receiver's own MTU (seeded C02-7) would not hold the sender's full-size datagram -/
+example : (∀ m ∈ Gen.RecvBuf.mtuUpperBounds, 1500 ≤ m) ∧ (∀ m ∈ Gen.RecvBuf.mtuUpperBounds, 1280 ≤ m) ∧
+    (1500 : Nat) ≤ recvBufSize ∧ ¬ ((1500 : Nat) ≤ 1280) := by decide
+
 /-! ## Non-vacuity: a concrete lossy run is reachable and the theorems speak about it. -/
 example : ∃ s, Reach 2 s ∧ s.delivered = [7] ∧ s.segs = [7, 8] ∧ s.nextRecv = 1 := by
   let s1 : St := { init with segs := [7] }
@@ -537,5 +579,107 @@ example : ∃ s, Flow.Reach ⟨2, 1, 1, 2⟩ s ∧ s.dead = true ∧ Flow.emitte
 /-- a full receive queue closes the window and the head segment is dropped until the application reads -/
 example : (Flow.recvOp ⟨2, 1, 1, 2⟩ (Flow.recvOp ⟨2, 1, 1, 2⟩ (Flow.recvOp ⟨2, 1, 1, 2⟩ (Flow.init ⟨2, 1, 1, 2⟩)
     (.data 0 5)) (.data 1 6)) (.data 2 7)).nextRecv = 2 := by decide
+
+/-! ## Retransmission timeout and back-off arithmetic (`Mieru.Model.Rto`)
+
+Assumption (explicit): durations below 2^52 ns, so that the float64 products of the code are exact and
+`time.Duration(float64(rto) * 1.5)` = `3 * rto / 2`; `srtt` / `meanDeviation` are arbitrary inputs (the float32
+smoothing of `UpdateRTT` is not modelled). -/
+
+/-- `RTO()` exactly: 2 s when there is no sample, else ⌊1.5·(srtt + max(4·mdev, 10 ms) + maxAckDelay)⌋. -/
+theorem rto_formula (srtt mdev mad : Nat) :
+    Rto.rto srtt mdev mad =
+      if srtt = 0 then 2000000000 else 3 * (srtt + max (4 * mdev) 10000000 + mad) / 2 :=
+  Rto.rto_formula srtt mdev mad
+
+/-- `RTO()` is clamped from below only: with the session's settings (maxAckDelay = 1 ms, multiplier 1.5) it is
+    never under 16.5 ms whatever the estimator holds, and it is monotone in both estimator values. The code has
+    NO upper clamp on `RTO()` (last conjunct: it exceeds every bound); the 10 s clamp is on `txTimeout`. -/
+theorem rto_lower_clamp :
+    (∀ srtt mdev, Rto.rtoMin ≤ Rto.rto srtt mdev Rto.maxAckDelay) ∧
+    (∀ srtt m m' mad, m ≤ m' → Rto.rto srtt m mad ≤ Rto.rto srtt m' mad) ∧
+    (∀ s s' mdev mad, 0 < s → s ≤ s' → Rto.rto s mdev mad ≤ Rto.rto s' mdev mad) ∧
+    (∀ B, B < Rto.rto (B + 1) 0 Rto.maxAckDelay) :=
+  ⟨Rto.rto_ge_min, Rto.rto_mono_mdev, Rto.rto_mono_srtt, Rto.rto_unbounded⟩
+
+/-- every stored `txTimeout` is at most 10 s, and at least the RTO floor when `RTO()` is (it always is). -/
+theorem txTimeout_within_clamp :
+    (∀ r k, Rto.txTimeout r k ≤ 10 * Rto.sec) ∧
+    (∀ r k, Rto.rtoMin ≤ r →
+      min (Rto.rtoMin * Rto.factor k) (10 * Rto.sec) ≤ Rto.txTimeout r k ∧ Rto.rtoMin ≤ Rto.txTimeout r k) :=
+  ⟨Rto.txTimeout_le_max, Rto.txTimeout_ge⟩
+
+/-- the back-off factor ⌊1.5^k⌋ never decreases with the transmission count, is at least 1, and `txTimeout` is
+    monotone in the transmission count and in `RTO()`. -/
+theorem backoff_monotone :
+    (∀ k, Rto.factor k ≤ Rto.factor (k + 1)) ∧ (∀ j k, j ≤ k → Rto.factor j ≤ Rto.factor k) ∧
+    (∀ k, 1 ≤ Rto.factor k) ∧
+    (∀ r j k, j ≤ k → Rto.txTimeout r j ≤ Rto.txTimeout r k) ∧
+    (∀ r r' k, r ≤ r' → Rto.txTimeout r k ≤ Rto.txTimeout r' k) :=
+  ⟨Rto.factor_succ, fun _ _ => Rto.factor_mono, Rto.factor_pos, fun r _ _ => Rto.txTimeout_mono_k r,
+   fun _ _ k => Rto.txTimeout_mono_r k⟩
+
+/-- the factor is the INTEGER part of 1.5^k (the conversion to `time.Duration` precedes the multiplication) -/
+theorem backoff_factor_values :
+    (List.range 11).map Rto.factor = [1, 1, 2, 3, 5, 7, 11, 17, 25, 38, 57] ∧ Rto.factor 20 = 3325 := by decide
+
+/-- Time to abandonment. For EVERY schedule of the transmissions of one never-acknowledged segment (`a` the
+    first, `b :: rest` the following ones, any length) that respects the scan's rule — 1→2 early or timed,
+    k→k+1 (k ≥ 2) only after more than `txTimeout_k` — and every sequence of RTO values at or above `rmin`:
+    the last transmission is at least Σ_{k=2}^{n-1} txTimeout(rmin, k) (+1 ns per timed gap) after the first.
+    With 20 transmissions (`rest.length = 18`) and `rmin = rtoMin` that is `abandonLowerBound` = 61.483 s;
+    with no RTT sample (RTO = 2 s) it is 170 s. The session is abandoned by a scan that finds `txCount ≥ 20`,
+    i.e. not before the 20th transmission. -/
+theorem abandon_time_lower_bound :
+    (∀ rmin a b rest, Rto.Valid 1 a (b :: rest) → (∀ x ∈ b :: rest, rmin ≤ x.r) →
+      a.t + Rto.sumTimeouts rmin 2 rest.length + rest.length ≤ Rto.lastT a (b :: rest)) ∧
+    (∀ a b rest, Rto.Valid 1 a (b :: rest) → (∀ x ∈ b :: rest, Rto.rtoMin ≤ x.r) → rest.length = 18 →
+      a.t + Rto.abandonLowerBound + 18 ≤ Rto.lastT a (b :: rest)) ∧
+    (∀ a b rest, Rto.Valid 1 a (b :: rest) → (∀ x ∈ b :: rest, x.r = Rto.rtoInitial) → rest.length = 18 →
+      a.t + Rto.abandonLowerBoundInitial + 18 ≤ Rto.lastT a (b :: rest)) ∧
+    Rto.abandonLowerBound = 61483000000 ∧ Rto.abandonLowerBoundInitial = 170000000000 ∧
+    (∀ nowUs s, Rto.decision nowUs s = .abandon ↔ Rto.txCountLimit ≤ s.r.txCount) := by
+  refine ⟨Rto.span_lower_from_first, ?_, ?_, Rto.abandonLowerBound_value, Rto.abandonLowerBoundInitial_value,
+    Rto.abandon_iff⟩
+  · intro a b rest hv hall hl
+    have := Rto.span_lower_from_first Rto.rtoMin a b rest hv hall
+    rw [hl] at this; exact this
+  · intro a b rest hv hall hl
+    have := Rto.span_lower_from_first Rto.rtoInitial a b rest hv (fun x hx => Nat.le_of_eq (hall x hx).symm)
+    rw [hl] at this; exact this
+
+/-- the scan compares in µs; a timed retransmission implies that more than `txTimeout` ns have elapsed, and the
+    timed scan is the untimed `Retx.step` bookkeeping -/
+theorem scan_rule :
+    (∀ nowUs s, Rto.timedOut nowUs s = true → s.txTimeUs * 1000 + s.txTimeoutNs < nowUs * 1000) ∧
+    (∀ nowUs rtoNow s, s.r.txCount < Rto.txCountLimit →
+      (Rto.scan nowUs rtoNow s).r = Retx.step 3 1 s.r (.scan (Rto.timedOut nowUs s))) :=
+  ⟨Rto.timedOut_gap, Rto.scan_refines_retx⟩
+
+/-! ### Non-vacuity of the RTO theorems -/
+
+/-- the bound is met with equality (+1 ns per timed gap) by the tight schedule, for every RTO value and length … -/
+example (r n t : Nat) : Rto.Valid 2 ⟨t, r⟩ (Rto.tight r 2 t n) ∧
+    Rto.lastT ⟨t, r⟩ (Rto.tight r 2 t n) = t + Rto.sumTimeouts r 2 n + n :=
+  ⟨Rto.tight_valid r n 2 t, Rto.tight_last r n 2 t (Nat.le_refl _)⟩
+
+/-- … concretely: 20 transmissions at the RTO floor, the second one early; the 20th is 61.483 s + 18 ns after
+    the first -/
+example : Rto.Valid 1 ⟨5, Rto.rtoMin⟩ (Rto.tight Rto.rtoMin 1 5 19) ∧
+    (Rto.tight Rto.rtoMin 1 5 19).length = 19 ∧ (∀ x ∈ Rto.tight Rto.rtoMin 1 5 19, Rto.rtoMin ≤ x.r) ∧
+    Rto.lastT ⟨5, Rto.rtoMin⟩ (Rto.tight Rto.rtoMin 1 5 19) = 5 + 61483000000 + 18 := by
+  refine ⟨Rto.tight_valid _ _ _ _, by decide, fun x hx => Nat.le_of_eq (Rto.tight_all _ _ _ _ x hx).symm, by decide⟩
+
+/-- the floor and the no-sample value are attained / approached: srtt = 1 ns gives 16.500001 ms -/
+example : Rto.rto 1 0 Rto.maxAckDelay = 16500001 ∧ Rto.rto 0 0 Rto.maxAckDelay = 2000000000 ∧
+    Rto.rto 100000001 30000000 Rto.maxAckDelay = 331500001 ∧ Rto.txTimeout Rto.rtoMin 16 = 10000000000 ∧
+    Rto.txTimeout Rto.rtoMin 15 = 7210500000 := by decide
+
+/-- a timed retransmission in the scan model -/
+example : Rto.decision 20000 ⟨⟨1, 0, 0, 0⟩, 1000, 16500000⟩ = .timeout ∧
+    Rto.decision 17500 ⟨⟨1, 0, 0, 0⟩, 1000, 16500000⟩ = .keep ∧
+    Rto.decision 1000 ⟨⟨1, 3, 0, 0⟩, 1000, 16500000⟩ = .early ∧
+    Rto.decision 1000 ⟨⟨20, 0, 0, 0⟩, 1000, 16500000⟩ = .abandon := by decide
+
 
 end Mieru.C02
